@@ -656,6 +656,22 @@ fn c05(cx: &mut Ctx<'_, '_>) {
                 }
             }
         }
+        // ... and, read off the events' own timestamps: the next attempt's Started is stamped no
+        // earlier than the delay after the failed attempt's Finished (the delay runs from the END of
+        // the attempt, which a lingering scenario span may postpone)
+        #[cfg(feature = "writers")]
+        if let Some((_, Some(ms))) = info.retry {
+            for w in atts.windows(2) {
+                let (Some(fi), Some(st)) = (w[0].finished, w[1].started) else { continue };
+                let (t0, t1) = (an.ev(fi).at, an.ev(st).at);
+                if let Ok(gap) = t1.duration_since(t0) {
+                    cx.t.count("c05.delays_measured_on_event_timestamps", 1);
+                    if gap.as_micros() + 100 < u128::from(ms) * 1000 {
+                        v.push(("delay-since-finished".into(), format!("the retry's Started is stamped {gap:?} after the failed attempt's Finished, configured delay {ms}ms")));
+                    }
+                }
+            }
+        }
         if atts.len() > 1 {
             let site = |a: &Attempt| {
                 a.evs
